@@ -778,6 +778,269 @@ def same_response_shape_case(ctx):
     return fails
 
 
+def unrooted_operation_case(ctx):
+    """Adding a root operation type is COMPATIBLE (`RootTypeAdded`), yet an operation of that kind is accepted by the
+    validator on the OLD schema, which has no such root type (no rule looks at it: the parent type is unknown, so
+    FieldsOnCorrectType stays silent), and is rejected on the new one (known finding G6; Lean:
+    `Props.C20.unrooted_operation_refutes`; `operations_stay_valid_rules` carries the hypothesis `OpsRooted`)."""
+    from py_gql import build_schema
+    from py_gql.lang import parse
+    from py_gql.validation import validate_ast
+    fails = []
+    base = "type Query { a: Int }"
+    for kind, root in (("mutation", "Mutation"), ("subscription", "Subscription")):
+        op = "%s { foo }" % kind
+        try:
+            o, n = build_schema(base), build_schema(base + " type %s { m: Int }" % root)
+            breaking = [c for c in diff_live_unsorted(o, n) if c[1] >= BREAKING]
+            ok_old = not validate_ast(o, parse(op)).errors
+            errs_new = validate_ast(n, parse(op)).errors
+        except Exception as e:  # noqa
+            fails.append(("unrooted-operation-case-raises:%s" % type(e).__name__, repr(e)))
+            continue
+        ctx.count()
+        ctx.stat("unrooted-operation-case")
+        if ok_old and not breaking and errs_new:
+            fails.append(("nobreaking-but-operation-invalid:unrooted-operation:%s" % kind,
+                          "type %s added: no BREAKING change reported, but `%s` (accepted before: the old schema has no %s type and "
+                          "no rule rejects the operation) now fails: %s" % (root, op, kind, str(errs_new[0])[:120])))
+    return fails
+
+
+LIVE_ATTRIBUTES = ["directive.arguments:add", "directive.arguments:remove", "directive.arguments:retype",
+                   "field.arguments:add", "field.arguments:remove", "field.arguments:retype",
+                   "type.fields:add", "type.fields:remove", "union.types:remove", "union.types:add",
+                   "object.interfaces:drop", "input.fields:add"]
+
+
+def live_object_case(ctx, seed, attribute, prime):
+    """A LIVE schema object is edited through a public attribute / setter after construction (`directive.arguments`,
+    `field.arguments`, `type.fields`, `union.types`, `object.interfaces`, `input_type.fields`) and diffed against its
+    untouched twin: the report must be the one obtained from a schema BUILT in the edited form (same edit made on the
+    description, then build_schema). `prime`: the two objects are diffed and validated once before the edit, so that
+    every memo / snapshot the library keeps has been filled. Returns None when the generated schema has no target."""
+    import random
+    from py_gql import build_schema
+    from py_gql.schema import Argument, Field, InputField, Int, String, ListType, NonNullType
+    rng = random.Random(seed)
+    d = gs.gen_schema(rng, size=rng.randint(1, 3))
+    n = copy.deepcopy(d)
+    what, how = attribute.split(":")
+    live = None     # function applied to the live schema
+    if what == "directive.arguments":
+        cands = [dd for dd in n["directives"] if (how == "add" or dd["args"])]
+        if how == "retype":
+            cands = [dd for dd in cands if any(a.get("default") is None for a in dd["args"])]
+        if not cands:
+            return None
+        dd = rng.choice(cands)
+        name = dd["name"]
+        if how == "add":
+            dd["args"].append({"name": "zz_live", "type": gs.nn(gs.named("Int")), "default": None, "desc": None})
+            live = lambda b: setattr(b.directives[name], "arguments", list(b.directives[name].arguments) + [Argument("zz_live", NonNullType(Int))])
+        elif how == "remove":
+            gone = dd["args"].pop()["name"]
+            live = lambda b: setattr(b.directives[name], "arguments", [a for a in b.directives[name].arguments if a.name != gone])
+        else:
+            a0 = next(a for a in dd["args"] if a.get("default") is None)
+            an = a0["name"]
+            a0["type"] = gs.lst(gs.named("String")) if a0["type"] != gs.lst(gs.named("String")) else gs.named("Int")
+            newt = (lambda: ListType(String)) if a0["type"] == gs.lst(gs.named("String")) else (lambda: Int)
+            live = lambda b: setattr(b.directives[name], "arguments", [Argument(a.name, newt()) if a.name == an else a for a in b.directives[name].arguments])
+    elif what == "field.arguments":
+        cands = [(t, f) for t in _objs(n) for f in _own_fields(n, t) if (how == "add" or f["args"])]
+        if how == "retype":
+            cands = [(t, f) for t, f in cands if any(a.get("default") is None for a in f["args"])]
+        if not cands:
+            return None
+        t, f = rng.choice(cands)
+        tn, fn = t["name"], f["name"]
+        fld = lambda b: b.types[tn].field_map[fn]
+        if how == "add":
+            f["args"].append({"name": "zz_live", "type": gs.nn(gs.named("Int")), "default": None, "desc": None})
+            live = lambda b: setattr(fld(b), "arguments", list(fld(b).arguments) + [Argument("zz_live", NonNullType(Int))])
+        elif how == "remove":
+            gone = f["args"].pop()["name"]
+            live = lambda b: setattr(fld(b), "arguments", [a for a in fld(b).arguments if a.name != gone])
+        else:
+            a0 = next(a for a in f["args"] if a.get("default") is None)
+            an = a0["name"]
+            a0["type"] = gs.lst(gs.named("String")) if a0["type"] != gs.lst(gs.named("String")) else gs.named("Int")
+            newt = (lambda: ListType(String)) if a0["type"] == gs.lst(gs.named("String")) else (lambda: Int)
+            live = lambda b: setattr(fld(b), "arguments", [Argument(a.name, newt()) if a.name == an else a for a in fld(b).arguments])
+    elif what == "type.fields":
+        if how == "add":
+            t = rng.choice(_objs(n))
+            tn = t["name"]
+            t["fields"].append({"name": "zz_live_f", "type": gs.named("Int"), "args": [], "deprecated": None, "desc": None})
+            live = lambda b: setattr(b.types[tn], "fields", list(b.types[tn].fields) + [Field("zz_live_f", Int)])
+        else:
+            cands = [t for t in _objs(n) if len(_own_fields(n, t)) >= 1 and len(t["fields"]) >= 2]
+            if not cands:
+                return None
+            t = rng.choice(cands)
+            tn = t["name"]
+            victim = rng.choice(_own_fields(n, t))["name"]
+            t["fields"] = [f for f in t["fields"] if f["name"] != victim]
+            live = lambda b: setattr(b.types[tn], "fields", [f for f in b.types[tn].fields if f.name != victim])
+    elif what == "union.types":
+        unions = _objs(n, ("union",))
+        if how == "remove":
+            cands = [u for u in unions if len(u["members"]) >= 2]
+            if not cands:
+                return None
+            u = rng.choice(cands)
+            un = u["name"]
+            gone = u["members"].pop()
+            live = lambda b: setattr(b.types[un], "types", [m for m in b.types[un].types if m.name != gone])
+        else:
+            cands = [(u, o) for u in unions for o in _objs(n) if o["name"] not in u["members"] and o["name"] not in (n.get("query"), n.get("mutation"), n.get("subscription"))]
+            if not cands:
+                return None
+            u, o = rng.choice(cands)
+            un, on = u["name"], o["name"]
+            u["members"].append(on)
+            live = lambda b: setattr(b.types[un], "types", list(b.types[un].types) + [b.types[on]])
+    elif what == "object.interfaces":
+        cands = [o for o in _objs(n) if o["interfaces"]]
+        if not cands:
+            return None
+        o = rng.choice(cands)
+        on = o["name"]
+        o["interfaces"] = []
+        live = lambda b: setattr(b.types[on], "interfaces", [])
+    elif what == "input.fields":
+        cands = _objs(n, ("input",))
+        if not cands:
+            return None
+        t = rng.choice(cands)
+        tn = t["name"]
+        key = "input_fields" if "input_fields" in t else "fields"
+        t[key].append({"name": "zz_live_in", "type": gs.nn(gs.named("Int")), "default": None, "desc": None})
+        live = lambda b: setattr(b.types[tn], "fields", list(b.types[tn].fields) + [InputField("zz_live_in", NonNullType(Int))])
+    else:
+        return None
+    try:
+        sdl_d, sdl_n = gs.to_sdl(d), gs.to_sdl(n)
+        expected = diff_live(build_schema(sdl_d), build_schema(sdl_n))
+    except Exception as e:  # noqa  (the edited description is not a valid schema: not this class's business)
+        ctx.stat("live-object-skipped:%s:%s" % (attribute, type(e).__name__))
+        return None
+    if not expected:
+        return None
+    fails = []
+    try:
+        a, b = build_schema(sdl_d), build_schema(sdl_d)
+        if prime:
+            diff_live(a, b)
+            b.validate()
+        live(b)
+        got = diff_live(a, b)
+    except Exception as e:  # noqa
+        ctx.stat("live-object-edit-raises:%s:%s" % (attribute, type(e).__name__))
+        return None
+    ctx.count()
+    ctx.stat("live-object:%s:%s" % (attribute, "primed" if prime else "fresh"))
+    ctx.nontrivial(("live-object", attribute, prime, sdl_d))
+    missing = [c for c in expected if c not in got]
+    extra = [c for c in got if c not in expected]
+    if missing:
+        fails.append(("edit-not-reported:live-object:%s" % what,
+                      "`%s` edited on a live schema (%s%s): diff_schema against the untouched twin does not report %s (a schema BUILT in the edited form does)"
+                      % (what, how, ", after a first diff + validate" if prime else "", missing[:2])))
+    elif extra:
+        fails.append(("edit-misreported:live-object:%s" % what,
+                      "`%s` edited on a live schema (%s): diff_schema against the untouched twin reports %s, which the schema built in the edited form does not"
+                      % (what, how, extra[:2])))
+    return fails
+
+
+def live_object_stage(ctx):
+    """every attribute kind x {fresh, primed}: a fixed quota of applicable cases in every run (own PRNG per case)"""
+    want = ctx.n(2, 8)
+    for attribute in LIVE_ATTRIBUTES:
+        for prime in (False, True):
+            got = 0
+            for j in range(want * 15):
+                if got >= want:
+                    break
+                seed = 0x11FE0B + 7919 * j + (__import__("zlib").crc32(attribute.encode()) & 0xFFFF)
+                fails = live_object_case(ctx, seed, attribute, prime)
+                if fails is None:
+                    continue
+                got += 1
+                for sig, what in fails:
+                    ctx.fail(sig, what, {"live_object_seed": seed, "attribute": attribute, "prime": prime, "what": what})
+            if got == 0:
+                ctx.stat("live-object-never-applicable:" + attribute)
+
+
+def shuffle_inner(rng, d):
+    """the same description with EVERY member list reordered: fields, arguments, enum values, input fields, union
+    members, implemented interfaces, directive arguments and locations (and the definitions themselves)"""
+    n = copy.deepcopy(d)
+    rng.shuffle(n["types"])
+    rng.shuffle(n["directives"])
+    for t in n["types"]:
+        for key in ("fields", "input_fields", "values", "members", "interfaces"):
+            if isinstance(t.get(key), list):
+                rng.shuffle(t[key])
+        for f in t.get("fields", []):
+            if isinstance(f.get("args"), list):
+                rng.shuffle(f["args"])
+    for dd in n["directives"]:
+        rng.shuffle(dd["args"])
+        rng.shuffle(dd["locations"])
+    return n
+
+
+def inner_order_case(ctx, seed):
+    """`diff_perm_deep` on the implementation: the report (as a multiset of class / severity / message) of an edited pair
+    does not change when every member list of BOTH schemas is reordered independently."""
+    import random
+    from py_gql import build_schema
+    rng = random.Random(seed)
+    d = gs.gen_schema(rng, size=rng.randint(1, 3))
+    n = d
+    applied = []
+    for _ in range(rng.randint(1, 3)):
+        r = rng.choice(EDITS)(rng, n)
+        if r is not None:
+            n = r[0]
+            applied.append(r[3])
+    try:
+        ref = diff_live(build_schema(gs.to_sdl(d)), build_schema(gs.to_sdl(n)))
+        d2, n2 = shuffle_inner(rng, d), shuffle_inner(rng, n)
+        got = diff_live(build_schema(gs.to_sdl(d2)), build_schema(gs.to_sdl(n2)))
+    except Exception as e:  # noqa  (combined edits can yield a description build_schema refuses)
+        ctx.stat("inner-order-skipped:" + type(e).__name__)
+        return None
+    ctx.count()
+    ctx.stat("inner-order-case:%d-changes" % min(len(ref), 9))
+    if ref:
+        ctx.nontrivial(("inner-order", gs.to_sdl(d), gs.to_sdl(n)))
+    if ref != got:
+        lost = [c for c in ref if c not in got] + [c for c in got if c not in ref]
+        return [("inner-order-dependent:%s" % (lost[0][0] if lost else "multiplicity"),
+                 "the report changes when the member lists of the two schemas are reordered: %s" % lost[:2])]
+    return []
+
+
+def inner_order_stage(ctx):
+    want = ctx.n(12, 80)
+    got = 0
+    for j in range(want * 4):
+        if got >= want:
+            break
+        seed = 0x0DDE5 + 104729 * j
+        fails = inner_order_case(ctx, seed)
+        if fails is None:
+            continue
+        got += 1
+        for sig, what in fails:
+            ctx.fail(sig, what, {"inner_order_seed": seed, "what": what})
+
+
 def shape(t):
     return "N" if t[0] == "named" else ("L(%s)" % shape(t[1]) if t[0] == "list" else "%s!" % shape(t[1]))
 
@@ -876,6 +1139,10 @@ def _run(ctx):
     want = ctx.n(4, 25)
     for sig, what in same_response_shape_case(ctx):
         ctx.fail(sig, what, {"same_response_shape_case": True, "what": what})
+    for sig, what in unrooted_operation_case(ctx):
+        ctx.fail(sig, what, {"unrooted_operation_case": True, "what": what})
+    live_object_stage(ctx)
+    inner_order_stage(ctx)
     hash_order_stage(ctx)
     for e in EDITS:
         got = 0
@@ -1440,6 +1707,12 @@ def replay(ctx, data):
         return not code_default_case(ctx, inp["code_default_seed"])
     if inp.get("same_response_shape_case"):
         return not same_response_shape_case(ctx)
+    if inp.get("unrooted_operation_case"):
+        return not unrooted_operation_case(ctx)
+    if "inner_order_seed" in inp:
+        return not inner_order_case(ctx, inp["inner_order_seed"])
+    if "live_object_seed" in inp:
+        return not live_object_case(ctx, inp["live_object_seed"], inp["attribute"], inp["prime"])
     if "schema_case_seed" in inp:
         fails = one_case(ctx, inp["schema_case_seed"], want=inp.get("edit"))
         return not fails
